@@ -309,6 +309,7 @@ def feed_direct(frames: Sequence[Tuple[int, bytes]], kind: str, monitored: List[
     import can
     res = EntryResult(f"direct-{kind}-{data_type}")
     cur = [0]
+    reuse_buf: Optional[bytearray] = None
     sm, bus = make_machine(kind, monitored, tx_ids, res, lambda: cur[0], padding)
     try:
         with quiet():
@@ -317,8 +318,15 @@ def feed_direct(frames: Sequence[Tuple[int, bytes]], kind: str, monitored: List[
                     shut(bus)
                     sm, bus = make_machine(kind, monitored, tx_ids, res, lambda: cur[0], padding)
                 cur[0] = k
-                if data_type == "bytearray":
-                    arg: Any = bytearray(data)
+                if data_type == "reused":
+                    # the caller owns one receive buffer: refilled in place for every frame and scribbled
+                    # over right after the call (aliasing of caller-owned data must not matter)
+                    if reuse_buf is None:
+                        reuse_buf = bytearray()
+                    reuse_buf[:] = data
+                    arg: Any = reuse_buf
+                elif data_type == "bytearray":
+                    arg = bytearray(data)
                 elif data_type == "message":
                     arg = can.Message(arbitration_id=fid, data=data, is_extended_id=fid > 0x7FF,
                                       is_fd=len(data) > 8, check=False).data
@@ -342,6 +350,8 @@ def feed_direct(frames: Sequence[Tuple[int, bytes]], kind: str, monitored: List[
                 except Exception as e:  # noqa: BLE001 - the oracle judges it
                     res.raised = (k, e)
                     break
+                if data_type == "reused" and reuse_buf is not None:
+                    reuse_buf[:] = b"\xEE" * len(reuse_buf)
     finally:
         shut(bus)
     return res
